@@ -33,6 +33,17 @@ CHECKS = {
             'Trusted: Lean kernel + standard axioms; numpy basic slicing is exercised, not modelled beyond row-major '
             'semantics; c09_pinned_refuted keeps the pinned (defective) _get_bins_slice refuted.',
             '5 (C09)'),
+    'C06': ('Lean 4 proof over exact IEEE-like reals (XReal): Bonferroni flag rule, Holm rank rule at the original '
+            'position via permutation + inverse-argsort lemma (argsortNat_inv), NaN never accepted, inclusion and '
+            'pass-both corollaries + bit-exact differential correspondence with tie-group canonicalisation',
+            'For every p-value list, level and number of datasets of the model: holm_flag_rank (flag/level of rank k is '
+            'reported at position sigma(k)), holm_ranks_perm/sorted, bonf_flag_iff, nan_never_accepted, '
+            'verdict_iff_no_flag, bonf_subset_holm_partial (+ the edge lemma showing the excluded point is where the '
+            'property contradicts itself), student_pass_passes_both. Tied to bonferroni.py by running '
+            'TestBonferroni/TestHolmBonferroni.evaluate() and the compiled model on the same arrays.',
+            'Trusted: Lean kernel + standard axioms; XReal has no rounding (levels alpha/(m-k) compared bit-exactly by '
+            'the correspondence instead); numpy argsort may rank ties differently (compared per tie group).',
+            '5 (C06)'),
 }
 
 NOT_YET = 'check not built yet in this round (planned in DESIGN.md section 5); no claim is made'
